@@ -55,6 +55,12 @@ pub enum Scenario {
     /// answers them, so the timeout's timer is cancelled in a later event, before its deadline; each task then sleeps
     /// `sleep_ns`, past the cancelled deadline
     LateAnswer { n: usize, timeout_ns: u64, answer_ns: u64, sleep_ns: u64 },
+    /// `n <= 9` tasks sleep `base_ns + k * 0.1 ms`: pending timers of one module whose deadlines differ by less than
+    /// a millisecond (the tasks are spawned in descending or ascending order of their deadlines)
+    Stagger { n: usize, base_ns: u64, descending: bool },
+    /// `n` tasks each create `sleep(Duration::MAX)` (a disarmed timer), poll it once and arm it with reset to the
+    /// common deadline `d_ns` ahead; odd tasks give up half way (their timer is dropped), even tasks await it
+    FarArmed { n: usize, d_ns: u64 },
 }
 
 #[derive(Debug, Clone, Serialize, Deserialize, PartialEq)]
@@ -93,6 +99,8 @@ impl Trigger {
             Scenario::Rearm { n, .. } => 3 * n,
             Scenario::TwinTimer { n, .. } => 2 * n,
             Scenario::LateAnswer { n, .. } => 2 * n,
+            Scenario::Stagger { n, .. } => 2 * n,
+            Scenario::FarArmed { n, .. } => 2 * n,
         }
     }
 }
@@ -188,7 +196,7 @@ impl Stormy {
         let (local, mixed) = (t.local, t.mixed);
         let local_of = move |k: usize| if mixed { k % 2 == 1 } else { local };
         let armed = match &t.scenario {
-            Scenario::Burst { .. } | Scenario::Answered { .. } | Scenario::Rearm { .. } | Scenario::TwinTimer { .. } | Scenario::LateAnswer { .. } => Armed::None,
+            Scenario::Burst { .. } | Scenario::Answered { .. } | Scenario::Rearm { .. } | Scenario::TwinTimer { .. } | Scenario::LateAnswer { .. } | Scenario::Stagger { .. } | Scenario::FarArmed { .. } => Armed::None,
             Scenario::Notify { n } => {
                 let notify = Arc::new(Notify::new());
                 for k in 0..*n {
@@ -368,6 +376,42 @@ impl Stormy {
                 self.armed[ti] = Armed::Answer(txs);
                 schedule_in(Message::default().kind(ANSWER).id(ti as u16), Duration::from_nanos(*answer_ns));
             }
+            Scenario::Stagger { n, base_ns, descending } => {
+                let order: Vec<usize> = if *descending { (0..*n).rev().collect() } else { (0..*n).collect() };
+                for k in order {
+                    let d = *base_ns + k as u64 * 100_000;
+                    let h = spawn_any(t.local, async move {
+                        sleep(Duration::from_nanos(d)).await;
+                        log(m, ti, k, at + d);
+                        done();
+                    });
+                    current().join(h);
+                    self.spawned += 1;
+                }
+            }
+            Scenario::FarArmed { n, d_ns } => {
+                for k in 0..*n {
+                    let d_ns = *d_ns;
+                    let h = spawn_any(t.local, async move {
+                        let mut far = std::pin::pin!(sleep(Duration::MAX));
+                        let _ = futures::poll!(far.as_mut());
+                        far.as_mut().reset(SimTime::from_duration(Duration::from_nanos(at + d_ns)));
+                        if k % 2 == 1 {
+                            tokio::select! {
+                                biased;
+                                () = sleep(Duration::from_nanos(d_ns / 2)) => log(m, ti, k, at + d_ns / 2),
+                                () = &mut far => log(m, ti, k, 0),
+                            }
+                        } else {
+                            far.await;
+                            log(m, ti, k, at + d_ns);
+                        }
+                        done();
+                    });
+                    current().join(h);
+                    self.spawned += 1;
+                }
+            }
             Scenario::TwinTimer { n, d_ns } => {
                 for k in 0..*n {
                     let d_ns = *d_ns;
@@ -536,7 +580,7 @@ fn expected_tasks(case: &Case) -> u64 {
         .iter()
         .flatten()
         .map(|t| match &t.scenario {
-            Scenario::Burst { n, .. } | Scenario::Notify { n } | Scenario::Captured { n } | Scenario::Answered { n, .. } | Scenario::Rearm { n, .. } | Scenario::TwinTimer { n, .. } | Scenario::LateAnswer { n, .. } => *n as u64,
+            Scenario::Burst { n, .. } | Scenario::Notify { n } | Scenario::Captured { n } | Scenario::Answered { n, .. } | Scenario::Rearm { n, .. } | Scenario::TwinTimer { n, .. } | Scenario::LateAnswer { n, .. } | Scenario::Stagger { n, .. } | Scenario::FarArmed { n, .. } => *n as u64,
             Scenario::Chain { depth, .. } => *depth as u64,
             Scenario::Drain { .. } => 1,
         })
@@ -606,7 +650,9 @@ pub fn gen_trigger(rng: &mut Rng, time_ns: u64, local: bool, big: bool) -> Trigg
         }
     };
     let marathon = !local && rng.chance(1, 300);
-    let scenario = match rng.below(13) {
+    let scenario = match rng.below(15) {
+        13 => Scenario::Stagger { n: 2 + rng.usize_below(8), base_ns: *rng.pick(&[1_000_000u64, SEC, SEC + 200_000]), descending: rng.chance(1, 2) },
+        14 => Scenario::FarArmed { n: 2 + rng.usize_below(6), d_ns: *rng.pick(&[2_000_000u64, SEC, 6 * SEC]) },
         12 => {
             let timeout_ns = *rng.pick(&[10 * SEC, 3 * SEC]);
             Scenario::LateAnswer { n: 1 + rng.usize_below(5), timeout_ns, answer_ns: *rng.pick(&[SEC, 2 * SEC]), sleep_ns: *rng.pick(&[20 * SEC, 5 * SEC, SEC]) }
@@ -677,7 +723,7 @@ pub fn gen_case(rng: &mut Rng, known_shape: bool) -> Case {
         let mut t = gen_trigger(rng, at, local, false);
         let completes_in_instant = match &t.scenario {
             Scenario::Burst { sleep_ns, .. } => *sleep_ns == 0,
-            Scenario::Captured { .. } | Scenario::Answered { .. } | Scenario::Rearm { .. } | Scenario::TwinTimer { .. } | Scenario::LateAnswer { .. } => false,
+            Scenario::Captured { .. } | Scenario::Answered { .. } | Scenario::Rearm { .. } | Scenario::TwinTimer { .. } | Scenario::LateAnswer { .. } | Scenario::Stagger { .. } | Scenario::FarArmed { .. } => false,
             _ => true,
         };
         if completes_in_instant && t.time_ns > 0 {
@@ -741,6 +787,8 @@ pub fn cmd(args: &Args) -> Report {
                 Scenario::Rearm { .. } => "scenarios_sleep_rearmed_to_its_own_deadline",
                 Scenario::TwinTimer { .. } => "scenarios_twin_timers_first_dropped",
                 Scenario::LateAnswer { .. } => "scenarios_timeout_answered_in_a_later_event_then_sleep",
+                Scenario::Stagger { .. } => "scenarios_deadlines_less_than_a_millisecond_apart",
+                Scenario::FarArmed { .. } => "scenarios_far_future_sleeps_armed_to_a_common_deadline",
             };
             rep.count(key, 1);
             if t.local {
